@@ -432,7 +432,7 @@ impl Property for C15 {
     }
     fn assumptions(&self) -> Vec<String> {
         vec![
-            "as C14: cooperative scheduler over std sync operations, sequentially consistent, lazy statics forced beforehand, RwLock writer preference not modelled".into(),
+            "as C14: cooperative scheduler over std sync operations, sequentially consistent, lazy statics forced beforehand, RwLock writer preference modelled (a new read request waits while the lock is held and a writer is parked on it; a recursive read behind a parked writer is therefore a deadlock)".into(),
             "'never blocks forever' is decided as the safety property 'no reachable state in which every unfinished thread is blocked' within the bounded scenarios; a deadlock verdict ends the process (parked threads cannot be unwound)".into(),
         ]
     }
